@@ -18,7 +18,7 @@ var c09Builtins = []string{"string", "length", "substring", "substringBefore", "
 
 // argument kinds as expression texts over c09Doc (type-chaotic placement)
 var c09Args = []string{
-	"nothing", "n", "0", "-1.5", "s", `""`, `"$99999999999999999999"`, `"0.0e0"`, `"[Y]-[M01]"`, `"+0100"`, "true", "null", "[]", "arr1", "arr2", "{}", "obj1", "$sum", "function($x){$x}", "/a/", "objs", `"#,##0.00"`,
+	"nothing", "n", "0", "-1.5", "s", `""`, `"$99999999999999999999"`, `"0.0e0"`, `"[Y]-[M01]"`, `"+0100"`, "true", "null", "[]", "arr1", "arr2", "{}", "obj1", "$sum", "function($x){$x}", "/a/", "objs", `"#,##0.00"`, "function($a, $b){$b.nothing}",
 }
 
 func c09Doc() map[string]interface{} {
